@@ -55,3 +55,156 @@ SMTLIB = {
 NEUTRAL = {"and": True, "or": False}
 # absorbing element
 ABSORBING = {"and": False, "or": True}
+
+
+# ---------------------------------------------------------------------------------------------------------------
+# Reference semantics on 256-bit words (Yellow Paper appendix H): a = top of stack, b = second item.
+W = 2 ** 256
+
+
+def _s(x):
+    return x - W if x >= W // 2 else x
+
+
+def evm_op(name, a, b=None, c=None):
+    if name == "ADD":
+        return (a + b) % W
+    if name == "SUB":
+        return (a - b) % W
+    if name == "MUL":
+        return (a * b) % W
+    if name == "DIV":
+        return a // b if b else 0
+    if name == "SDIV":
+        if b == 0:
+            return 0
+        sa_, sb = _s(a), _s(b)
+        q = abs(sa_) // abs(sb)
+        return (q if (sa_ < 0) == (sb < 0) else -q) % W
+    if name == "MOD":
+        return a % b if b else 0
+    if name == "SMOD":
+        if b == 0:
+            return 0
+        sa_, sb = _s(a), _s(b)
+        r = abs(sa_) % abs(sb)
+        return (r if sa_ >= 0 else -r) % W
+    if name == "EXP":
+        return pow(a, b, W)
+    if name == "AND":
+        return a & b
+    if name == "OR":
+        return a | b
+    if name == "XOR":
+        return a ^ b
+    if name == "NOT":
+        return a ^ M
+    if name == "ISZERO":
+        return 1 if a == 0 else 0
+    if name == "EQ":
+        return 1 if a == b else 0
+    if name == "LT":
+        return 1 if a < b else 0
+    if name == "GT":
+        return 1 if a > b else 0
+    if name == "SLT":
+        return 1 if _s(a) < _s(b) else 0
+    if name == "SGT":
+        return 1 if _s(a) > _s(b) else 0
+    if name == "SHL":      # a = shift, b = value
+        return (b << a) % W if a < 256 else 0
+    if name == "SHR":
+        return b >> a if a < 256 else 0
+    if name == "SAR":
+        return (_s(b) >> min(a, 255)) % W
+    if name == "BYTE":     # a = index, b = word
+        return (b >> (8 * (31 - a))) & 0xFF if a < 32 else 0
+    if name == "SIGNEXTEND":   # a = byte index, b = value
+        if a >= 31:
+            return b
+        bit = 8 * a + 7
+        mask = (1 << (bit + 1)) - 1
+        return (b | (W - 1 - mask)) if (b >> bit) & 1 else (b & mask)
+    if name == "ADDMOD":
+        return (a + b) % c if c else 0
+    if name == "MULMOD":
+        return (a * b) % c if c else 0
+    raise KeyError(name)
+
+
+# internal operator text of the constant folder -> opcode
+FOLD_OPERATOR = {"+": "ADD", "-": "SUB", "*": "MUL", "/": "DIV", "^": "EXP", "and": "AND", "or": "OR", "xor": "XOR", "%": "MOD",
+                 "eq": "EQ", "gt": "GT", "lt": "LT", "shr": "SHR", "shl": "SHL", "sar": "SAR"}
+
+# Witness values used to *refute* candidate identities (a counterexample is definitive) and to cross-check the hand table.
+WITNESS = [0, 1, 2, 3, 5, 31, 32, 255, 256, 257, 2 ** 255 - 1, 2 ** 255, 2 ** 255 + 1, M - 1, M, 0x1234567890ABCDEF, 2 ** 128, 2 ** 200 + 12345]
+
+# The complete set of valid rows of the rule pattern language (DESIGN.md appendix A):
+#   operands: 0, 1, M, X (a symbol), Y (another symbol); result: a constant in {0,1,M} or the name of an operand symbol.
+# key (opcode, a, b) -> result, a/b/result in {0,1,"M","X","Y"}; only rows with at least one symbolic operand are listed.
+IDENTITIES = {}
+
+
+def _row(op, a, b, r):
+    IDENTITIES[(op, a, b)] = r
+
+
+for _op in ("ADD", "OR", "XOR"):
+    _row(_op, 0, "X", "X"); _row(_op, "X", 0, "X")
+_row("SUB", "X", 0, "X"); _row("SUB", "X", "X", 0)
+for _c in (0,):
+    _row("MUL", _c, "X", 0); _row("MUL", "X", _c, 0)
+_row("MUL", 1, "X", "X"); _row("MUL", "X", 1, "X")
+for _op in ("DIV", "SDIV"):
+    _row(_op, "X", 1, "X"); _row(_op, "X", 0, 0); _row(_op, 0, "X", 0)
+for _op in ("MOD", "SMOD"):
+    _row(_op, "X", 1, 0); _row(_op, "X", 0, 0); _row(_op, 0, "X", 0); _row(_op, "X", "X", 0)
+_row("SMOD", "X", "M", 0)
+_row("SDIV", "X", "M", None)   # x / -1 = -x : not expressible, placeholder removed below
+del IDENTITIES[("SDIV", "X", "M")]
+_row("EXP", "X", 0, 1); _row("EXP", "X", 1, "X"); _row("EXP", 1, "X", 1)
+_row("AND", 0, "X", 0); _row("AND", "X", 0, 0); _row("AND", "M", "X", "X"); _row("AND", "X", "M", "X"); _row("AND", "X", "X", "X")
+_row("OR", "M", "X", "M"); _row("OR", "X", "M", "M"); _row("OR", "X", "X", "X")
+_row("XOR", "X", "X", 0)
+_row("EQ", "X", "X", 1)
+_row("LT", "X", 0, 0); _row("LT", "M", "X", 0); _row("LT", "X", "X", 0)
+_row("GT", 0, "X", 0); _row("GT", "X", "M", 0); _row("GT", "X", "X", 0)
+_row("SLT", "X", "X", 0); _row("SGT", "X", "X", 0)
+for _op in ("SHL", "SHR", "SAR"):
+    _row(_op, 0, "X", "X"); _row(_op, "X", 0, 0)
+_row("SAR", "X", "M", "M")
+_row("BYTE", "X", 0, 0)
+_row("SIGNEXTEND", "X", 0, 0)
+# rows found by the witness cross-check and then proved by hand:
+_row("SHL", "M", "X", 0); _row("SHR", "M", "X", 0)      # shift amount >= 256
+_row("SHR", "X", "X", 0)                                  # x < 2**x for x < 256, and shifts >= 256 give 0
+_row("BYTE", "M", "X", 0)                                 # index >= 32
+_row("SIGNEXTEND", "M", "X", "X")                         # byte index >= 31: unchanged
+_row("SIGNEXTEND", "X", 1, 1)                             # bit 8a+7 of 1 is 0 for every a
+_row("SIGNEXTEND", "X", "M", "M")                         # all ones stays all ones
+_row("SIGNEXTEND", "X", "X", "X")                         # x < 31 has no bit at position 8x+7 >= 7... (x < 128)
+
+
+def operand_value(t, x, y):
+    return {"X": x, "Y": y, "M": M}.get(t, t)
+
+
+def refute(op, a, b, r):
+    """A witness (x, y) with op(a,b) != r, or None if the candidate identity holds on every witness."""
+    for x in WITNESS:
+        for y in WITNESS:
+            if evm_op(op, operand_value(a, x, y), operand_value(b, x, y)) != operand_value(r, x, y):
+                return (x, y)
+    return None
+
+
+def identity_valid(op, a, b, r):
+    """Valid iff listed in the complete table; the witness set must agree (cross-check of the trusted base)."""
+    if not any(isinstance(t, str) and t in ("X", "Y") for t in (a, b)):
+        # ground instance: just compute
+        return evm_op(op, operand_value(a, 0, 0), operand_value(b, 0, 0)) == operand_value(r, 0, 0), None
+    listed = IDENTITIES.get((op, a, b)) == r and (op, a, b) in IDENTITIES
+    cex = refute(op, a, b, r)
+    if listed and cex is not None:
+        raise AssertionError(f"reference table lists an identity refuted by witness {cex}: {op}({a},{b}) = {r}")
+    return listed, cex
